@@ -70,6 +70,20 @@ func (r *Rec) Snapshot() (int, []interface{}, []interface{}) {
 	return c, a, o
 }
 
+// ResetDepth clears the re-entry detector.
+func (r *Rec) ResetDepth() {
+	r.mu.Lock()
+	r.MaxDepth = 0
+	r.mu.Unlock()
+}
+
+// GetMaxDepth reads the re-entry detector.
+func (r *Rec) GetMaxDepth() int {
+	r.mu.Lock()
+	defer r.mu.Unlock()
+	return r.MaxDepth
+}
+
 // Fn describes one zoo function.
 type Fn struct {
 	Idx        int
